@@ -26,7 +26,7 @@ RULE = (
 ASSUMPTIONS = ["dense reference; forced measurement settings so that compile is a function",
                "compile(circuit, initial_state=s) aliasing s is outside the statement and not asserted"]
 REQUIRED_CLASSES = {"interleave": ["rewrite:group", "rewrite:unwrap", "rewrite:rmid", "rewrite:copy", "rewrite:assign_empty",
-                                   "call:assign_noise", "call:mc", "call:solve", "call:hybrid", "call:evo", "call:alt", "call:copy_grow", "call:compile", "call:metric", "reuse_after_noisy_copy", "rewrite:noisy_copy"]}
+                                   "call:assign_noise", "call:mc", "call:solve", "call:hybrid", "call:evo", "call:alt", "call:copy_grow", "noisy_compile_twice:two_sided_noise", "call:compile", "call:metric", "reuse_after_noisy_copy", "rewrite:noisy_copy"]}
 
 
 def compilers():
@@ -101,7 +101,34 @@ def build_map(mapspec):
     for key, gate, spec in mapspec:
         if gate in GNAMES:
             m[key][GNAMES[gate]] = noise_from(spec)
+            if len(key) == 2 and gate == "CZ":
+                # control and target noise on opposite sides of the gate
+                m[key][GNAMES[gate]] = [noise_from(spec), noise_from([spec[0], spec[1], not spec[2]])]
     return m
+
+
+def noise_signature(circ):
+    """what noise every operation carries (class name + parameters), in sequence order"""
+    def one(x):
+        return (type(x).__name__, sorted((k, repr(v)) for k, v in (getattr(x, "noise_parameters", None) or {}).items()))
+    out = []
+    for o in circ.sequence():
+        d = gc.name_of(o)
+        if d is None:
+            continue
+        nz = o.noise
+        out.append((repr(d), [one(x) for x in nz] if isinstance(nz, list) else one(nz)))
+    return out
+
+
+def state_signature(state):
+    d = state.rep_data
+    kind = type(d).__name__
+    if kind == "DensityMatrix":
+        return ("dm", np.round(np.asarray(d.data), 10).tolist())
+    if kind == "MixedStabilizer":
+        return ("mix", [(round(float(p_), 12), np.asarray(t.table).tolist(), np.asarray(t.phase).tolist()) for p_, t in d.mixture])
+    return ("stab", np.asarray(d.tableau.table).tolist(), np.asarray(d.tableau.phase).tolist())
 
 
 def check(case, sub="interleave"):
@@ -211,6 +238,28 @@ def check(case, sub="interleave"):
                 raise Violation(sub, "not-a-copy", "assign_noise", icls, "assign_noise returned the circuit itself")
             derived = True
             cl.add("call:assign_noise")
+            # compiling the noisy copy with noise simulation on leaves it as it was: same noise on every operation,
+            # and a second compile returns the same state
+            sig0 = noise_signature(N)
+            two_sided = any(isinstance(x[1], list) and len(x[1]) == 2 and x[1][0] != x[1][1] for x in sig0)
+            def noisy_measuring(o):
+                d_ = gc.name_of(o)
+                nz_ = o.noise if isinstance(o.noise, list) else [o.noise]
+                return d_ is not None and gc.measuring(d_) and any(type(x).__name__ != "NoNoise" for x in nz_)
+
+            # (the compilers reject noise models on measuring operations with a ValueError: such copies are not compiled)
+            backends = () if any(noisy_measuring(o) for o in N.sequence()) else (("stab", "dm") if n <= 4 else ("stab",))
+            for backend in backends:
+                s1 = compile_state(sub, icls + ":noise_on", N, backend, 1, True)
+                if noise_signature(N) != sig0:
+                    raise Violation(sub, "original-changed", "compile:noisy", icls, "compiling a noisy circuit (%s) changed the noise its operations carry" % backend)
+                s2 = compile_state(sub, icls + ":noise_on", N, backend, 1, True)
+                if state_signature(s1) != state_signature(s2):
+                    raise Violation(sub, "original-changed", "compile:noisy", icls, "two compiles of the same noisy circuit (%s) give different states" % backend)
+            if backends:
+                cl.add("noisy_compile_twice")
+            if two_sided and backends:
+                cl.add("noisy_compile_twice:two_sided_noise")
         elif a == "N:rewrite":
             # a noisy copy, rewritten, must still compile to the noiseless state when noise simulation is off
             m = build_map(step[1])
